@@ -13,6 +13,8 @@ CORE_ASSUME = ["behaviours are pure observers in these runs (empty plan): no sub
 PROPS = {
     "C01": {
         "profile": "core", "n_quick": 5, "n_thorough": 40, "nops": 16, "nlists": 3, "cfgs": SIX,
+        "corpus": ["fwd_sub_table", "fwd_sub_table_internal", "fwd_sub_irows", "fwd_sub_sirows", "fwd_subsub_table",
+                   "fwd_subsub_irows", "fwd_subsub_sirows", "fwd_nowhere", "ortho_codes"],
         "monitor": None,
         "relevant": M.relevant_by(M.proj({"G0", "G1", "A"}, keep_res=True)),
         "rule": "seeded random machines (1-3 regions, depth <= 2, conflicting rows, state and sm internal tables) x 6 "
@@ -27,14 +29,17 @@ PROPS = {
         "assumptions": CORE_ASSUME,
     },
     "C06": {
-        "profile": "core", "n_quick": 5, "n_thorough": 40, "nops": 16, "nlists": 3, "cfgs": SIX,
+        "profile": "all", "n_quick": 5, "n_thorough": 40, "nops": 16, "nlists": 3, "cfgs": SIX,
+        "corpus": ["ortho_codes", "ortho_terminate", "ortho_interrupt"],
         "monitor": M.mon_C06,
-        "relevant": M.relevant_by(M.proj({"NT"}, keep_res=True)),
+        "relevant": M.relevant_by(M.proj(M.ALL, keep_res=True)),
         "rule": "same machines as C01; result code and no_transition calls of every process_event",
         "assumptions": CORE_ASSUME,
     },
     "C07": {
         "profile": "nest", "n_quick": 4, "n_thorough": 30, "nops": 16, "nlists": 3, "cfgs": SIX,
+        "corpus": ["fwd_sub_table", "fwd_sub_table_internal", "fwd_sub_irows", "fwd_sub_sirows", "fwd_subsub_table",
+                   "fwd_subsub_irows", "fwd_subsub_sirows", "fwd_nowhere"],
         "monitor": None,
         "relevant": M.relevant_by(M.proj(M.ALL, keep_res=True, keep_snap=True)),
         "rule": "nested machines (depth 2-3, 1-2 regions per level); full trace compared",
@@ -49,7 +54,8 @@ PROPS = {
         "assumptions": ["exception-free behaviours"],
     },
     "C04": {
-        "profile": "rtc", "n_quick": 5, "n_thorough": 40, "nops": 16, "nlists": 3, "cfgs": SIX,
+        "profile": "rtc", "n_quick": 5, "n_thorough": 40, "nops": 16, "nlists": 4, "cfgs": SIX,
+        "ops": lambda g, md, n: (g.gen_ops_queue(md, n) if g.rng.random() < 0.5 else g.gen_ops(md, n)),
         "monitor": M.mon_C04,
         "relevant": M.relevant_by(M.proj(M.ALL, keep_res=True, keep_snap=True, keep_ev=True)),
         "rule": "machines whose behaviours submit (process_event / enqueue_event) 0-3 further events at planned behaviour "
@@ -76,14 +82,17 @@ PROPS = {
         "assumptions": CORE_ASSUME,
     },
     "C10": {
-        "profile": "compl", "n_quick": 5, "n_thorough": 40, "nops": 16, "nlists": 3, "cfgs": SIX,
+        "profile": "rtc", "n_quick": 5, "n_thorough": 40, "nops": 16, "nlists": 3, "cfgs": SIX,
         "monitor": None,
         "relevant": M.relevant_by(M.proj(M.ALL, keep_res=True, keep_snap=True, keep_ev=True)),
-        "rule": "machines with completion rows from simple states (guards, conflicts, chains towards later states)",
+        "monitor": M.mon_C04,
+        "rule": "machines with completion rows from simple states (guards, conflicts, chains towards later states) whose "
+                "behaviours also submit / enqueue events at planned positions, plus queue operations from outside",
         "assumptions": ["guard results of a completion row are fixed during one operation"],
     },
     "C11": {
         "profile": "block", "n_quick": 5, "n_thorough": 40, "nops": 18, "nlists": 3, "cfgs": SIX,
+        "corpus": ["ortho_terminate", "ortho_interrupt"],
         "monitor": None,
         "relevant": M.relevant_by(M.proj(M.ALL, keep_res=True, keep_snap=True)),
         "rule": "machines with terminate and interrupt states (1-2 end-interrupt events) at any level",
@@ -99,7 +108,7 @@ PROPS = {
     },
     "C19": {
         "profile": "nest", "n_quick": 3, "n_thorough": 16, "nops": 14, "nlists": 3,
-        "cfgs": POL("back") + POL("mp11") + ["back11:p2", "back_fct:p1", "mp11_fct:p3", "mp11_fpa:p2"],
+        "cfgs": POL("back") + POL("back11") + POL("mp11") + ["back_fct:p1", "back_fct:p2", "mp11_fct:p3", "mp11_fct:p1", "mp11_fpa:p2"],
         "monitor": M.mon_C19,
         "relevant": M.relevant_by(M.proj(M.ALL, keep_obs=True)),
         "rule": "seeded random nested machines (profile nest) x 4 policies x engines; every taken external transition "
@@ -118,8 +127,16 @@ def prebuild():
     for prop, spec in PROPS.items():
         for name, g, md in checklib.machines_for(spec["profile"], seed, spec["n_quick"]):
             for c in spec["cfgs"]:
-                if msmgen.supported(md, c):
-                    jobs[(name, c)] = (md, c)
+                md2 = msmgen.adapt(md, c)
+                if md2 is not None:
+                    jobs[(name, c)] = (md2, c)
+        for nm in spec.get("corpus", []):
+            import json as _json
+            d = _json.load(open(os.path.join(checklib.VERIF, "corpus", nm + ".json")))
+            for c in d.get("cfgs", spec["cfgs"]):
+                md2 = msmgen.adapt(d["md"], c)
+                if md2 is not None:
+                    jobs[(nm, c)] = (md2, c)
     with ThreadPoolExecutor(14) as ex:
         res = list(ex.map(lambda j: corr.build_binary(j[0], j[1]), jobs.values()))
     bad = [r for r in res if r[0] is None]
